@@ -4,6 +4,7 @@ import Jrpc.Backoff
 import Jrpc.Frames
 import Jrpc.Errors
 import Jrpc.Call
+import Jrpc.Reader
 /-
   Jrpc.Ops — dispatch of driver operations onto the model's executable definitions.
 -/
@@ -216,6 +217,37 @@ def opCall (j : Json) : R Json := do
           ("err", optJ (fun (b : Bool) => (b : Json)) o.err)]
   return Json.mkObj [("wire", wireJ), ("slots", optJ (fun l => Json.arr (l.map argJ).toArray) reached), ("caller", outJ)]
 
+/-- op "reader": replay of the read/close trace a handler performed on its reader parameter against
+    `waitReadCloser` over a body of `len` bytes (byte k = k mod 251); the trace gives, per read, how
+    many bytes the body delivered.  Output per step: bytes handed over (count + sum), eof, refusal. -/
+def opReader (j : Json) : R Json := do
+  let len ← nat j "len"
+  let salt := natD j "salt" 0
+  let w0 : Reader.WRC := { rest := (List.range len).map (fun k => (k + salt) % 251) }
+  let ops ← (arrD j "ops").mapM (fun o => do
+    match (← str o "op") with
+    | "read" => return Reader.Op.read (← nat o "want") (← nat o "got") (boolD o "eofWithData" false)
+    | "close" => return Reader.Op.close
+    | x => throw s!"bad reader op {x}")
+  let (w, outs) := Reader.run w0 ops
+  let outJ : Reader.Out → Json
+    | .data bs eof => Json.mkObj [("n", bs.length), ("sum", (bs.foldl (· + ·) 0 : Nat)), ("eof", eof)]
+    | .closed => "closed"
+    | .crash => "crash"
+    | .refused => "refused"
+  return Json.mkObj [("outs", Json.arr (outs.map outJ).toArray), ("waitClosed", w.waitClosed),
+                     ("closeCount", w.closeCount), ("unread", w.rest.length)]
+
+/-- op "rendezvous": arrival events at the reader table ↦ completed hand-offs. -/
+def opRendezvous (j : Json) : R Json := do
+  let es ← (arrD j "events").mapM (fun e => do
+    match (← str e "ev") with
+    | "upload" => return Reader.TEvent.upload (← nat e "uuid") (← nat e "reader")
+    | "decode" => return Reader.TEvent.decode (← nat e "uuid")
+    | x => throw s!"bad table event {x}")
+  let (_, hs) := Reader.trun [] es
+  return Json.mkObj [("handoffs", Json.arr (hs.map (fun h => Json.arr #[(h.uuid : Json), (h.reader : Json)])).toArray)]
+
 def run (j : Json) : R Json := do
   match (← str j "op") with
   | "http" => opHttp j
@@ -226,6 +258,8 @@ def run (j : Json) : R Json := do
   | "frames" => opFrames j
   | "errors" => opErrors j
   | "call" => opCall j
+  | "reader" => opReader j
+  | "rendezvous" => opRendezvous j
   | "authhttp" => opAuthHttp j
   | op => throw s!"unknown op {op}"
 
